@@ -23,7 +23,7 @@ import itertools
 from fractions import Fraction as Fr
 
 from verifkit import pat
-from verifkit.absrun import Obj, Runner, StandIn
+from verifkit.absrun import isinstance_names, Obj, Runner, StandIn
 from verifkit.core import Outcome
 from verifkit.finite import Undecided
 
@@ -476,8 +476,7 @@ def r03_2b(ctx):
 
     def isinstance_hook(rn, ev, call, name, recv, args, kwargs):
         if name == "isinstance":
-            c = call.args[1]
-            names = [c.id] if isinstance(c, ast.Name) else [e.id for e in c.elts]
+            names = isinstance_names(call, args)
             k = getattr(args[0], "kind", None)
             return True if k is None else any(n in ctx.model.mro(k) for n in names)
         return NotImplemented
@@ -539,8 +538,7 @@ def r03_3(ctx):
 
         def hook(rn, ev, call, name, recv, args, kwargs, kind=kind):
             if name == "isinstance":
-                c = call.args[1]
-                names = [c.id] if isinstance(c, ast.Name) else [e.id for e in c.elts]
+                names = isinstance_names(call, args)
                 mro = ctx.model.mro(kind)
                 return any(n in mro for n in names)
             if recv is S and name == "_contains_shape":
@@ -564,8 +562,7 @@ def r03_3(ctx):
 
     def hook2(rn, ev, call, name, recv, args, kwargs):
         if name == "isinstance":
-            c = call.args[1]
-            names = [c.id] if isinstance(c, ast.Name) else [e.id for e in c.elts]
+            names = isinstance_names(call, args)
             return any(n in ctx.model.mro("SimpleShape") for n in names)
         if recv is S and name and name.endswith("contains_simple"):
             called.append(args)
